@@ -183,16 +183,20 @@ package gtab
 //@     invariant ref(seq) == ref(ctx.seq) && off(seq) == off(ctx.seq) && len(seq) == len(ctx.seq) && ref(seq) == old(ref(ctx.seq))
 //@     invariant isnil(skipPos) || ref(skipPos) != ref(matchPos)
 //@     invariant a < p && p <= b && len(matchPos) == iter + 1 && len(matchPos) + len(skipPos) == p - a && matchPos[0] == a
-//@     invariant forall k int :: 0 <= k && k < len(skipPos) ==> a < skipPos[k] && skipPos[k] < p
+//@     invariant forall k int :: 0 <= k && k < len(skipPos) ==> a < skipPos[k] && skipPos[k] < p && skipPos[k] >= a + 1 + k
 //@   loop 2
 //@     invariant (isnil(matchPos) || fresh(matchPos)) && (isnil(skipPos) || fresh(skipPos)) && (isnil(text) || fresh(text)) && stackinv(ctx) && keepOK(ctx) && len(ctx.seq) == old(len(ctx.seq)) && len(ctx.stack) == old(len(ctx.stack)) && (forall k int :: 0 <= k && k < len(ctx.stack) ==> !fresh(ctx.stack[k].InputPos))
 //@     invariant ref(seq) == ref(ctx.seq) && off(seq) == off(ctx.seq) && len(seq) == len(ctx.seq) && ref(seq) == old(ref(ctx.seq))
 //@     invariant isnil(skipPos) || ref(skipPos) != ref(matchPos)
 //@     invariant a < p && p <= b && len(matchPos) == rangeindex + 1 && len(matchPos) + len(skipPos) == p - a && matchPos[0] == a
-//@     invariant forall k int :: 0 <= k && k < len(skipPos) ==> a < skipPos[k] && skipPos[k] < p
+//@     invariant forall k int :: 0 <= k && k < len(skipPos) ==> a < skipPos[k] && skipPos[k] < p && skipPos[k] >= a + 1 + k
 //@     decreases b - p
 //@   loop 3
 //@     invariant (isnil(matchPos) || fresh(matchPos)) && len(matchPos) >= 1 && stackinv(ctx) && len(ctx.seq) == old(len(ctx.seq)) && len(ctx.stack) == old(len(ctx.stack)) && (forall k int :: 0 <= k && k < len(ctx.stack) ==> !fresh(ctx.stack[k].InputPos))
 //@     invariant ref(seq) == ref(ctx.seq) && off(seq) == off(ctx.seq) && len(seq) == len(ctx.seq) && ref(seq) == old(ref(ctx.seq))
 //@     invariant a < p && p <= b && len(matchPos) == len(lig.In) + 1 && len(matchPos) + len(skipPos) == p - a
-//@     invariant forall k int :: 0 <= k && k < len(skipPos) ==> a < skipPos[k] && skipPos[k] < p
+//@     invariant forall k int :: 0 <= k && k < len(skipPos) ==> a < skipPos[k] && skipPos[k] < p && skipPos[k] >= a + 1 + k
+//@     invariant (isnil(skipPos) || fresh(skipPos))
+//@     invariant forall k int :: 0 <= k && k < iter ==> seq[a+1+k] == pre(seq[skipPos[k]])
+//@     invariant forall q int :: a + 1 + iter <= q && q < len(seq) ==> seq[q] == pre(seq[q])
+//@     exit_assert forall k int :: 0 <= k && k < len(skipPos) ==> seq[a+1+k] == pre(seq[skipPos[k]])
